@@ -22,6 +22,9 @@ func init() {
 		Technique: "who-may-reach over the call graph with goroutine roots, writer enumeration on atomics, must-held lock analysis incl. read/write lock distinction, must-precede ordering",
 		Trusted:   "go/types+go/ssa; sync and sync/atomic semantics; the Go memory model",
 		Run:       runC17,
+		Imports: []Import{
+			{From: "C04.a", Match: "getByHeight-miss-after", As: "C17.f", Why: "a flush moves headers from the pending batch to the datastore: a reader that looked at the index first and at the pending batch afterwards can miss a header that was present the whole time"},
+		},
 	})
 }
 
@@ -194,6 +197,8 @@ func runC17(c *an.Ctx) {
 			})
 		}
 		c.Check(okS, "C17.c", "sync-dominates", "every store operation of DeleteRange is dominated by a successful Sync()", deleteRange, nil, "", nil)
+		checkSyncRoundTrip(c, "C17.c", syncFn, p.Method("store", "Store", "flushLoop"))
+		checkPendingFirst(c, "C17.f")
 	}
 
 	// --- C17.d guarded-by on the pending batch
